@@ -138,6 +138,12 @@ def run_check(tier, seed):
             cases += ["SVP " + hx(m) for m in mutations(s, rng, 1)]
     correspond(run, "random_long_versions_and_mutations", cases, **kw)
 
+    # every non-ASCII character a Unicode-aware regex flag, class or pre-processing step relates to the grammar's alphabet, around and inside valid versions
+    ub = ["1.2.3", "v1.2.3-alpha.1+build.5", "0.0.0-0a.K-s+00.k", "10.20.30-rc.1", "1.0.0+sk.SK", "1.0.0-s", "1.0.0+k"]
+    uni = unicode_neighbours(ub, rng, 3 if tier == "quick" else 12)
+    correspond(run, "unicode_neighbours_of_the_alphabet_around_and_inside_valid_versions",
+               ["SVP " + hx(s) for s in uni] + ["CHK semver " + hx(s) for s in uni[::7]], **kw)
+
     # the check command on a sample of everything above
     sample = [rand_version(rng) for _ in range(n // 10)] + rng.sample(muts, min(len(muts), n // 10)) + rng.sample(base, min(len(base), 500))
     correspond(run, "zerv_check_format_semver", ["CHK semver " + hx(s) for s in sample], **kw)
@@ -146,5 +152,5 @@ def run_check(tier, seed):
 
 RULE = ("requests are strings given to SemVer::from_str (and to `zerv check --format semver`); exhaustive over short strings of an "
         "11-character grammar alphabet incl. a non-ASCII digit and letter, structured valid versions with all single-edit mutations "
-        "sampled, random long versions with numbers up to 30 digits; non-trivial = accepted by the implementation or containing a "
+        "sampled, random long versions with numbers up to 30 digits, every non-ASCII character whose case / compatibility form is ASCII or that is a digit, space or format character (2769 of them, from unicodedata) before, behind, inside and in place of a character of valid versions; non-trivial = accepted by the implementation or containing a "
         "separator; distinct = distinct request lines")
